@@ -414,7 +414,7 @@ class FullHooks(ExecHooks):
 
 
 def run_execute(prog: Program, kind: str, mode: str | None, params=None, paramstyle="pyformat", nop_regexes=None,
-                variables=None, max_paths=256, old_sqlstate="OLD", undefined_var=False, nop_match=None):
+                variables=None, max_paths=256, old_sqlstate="OLD", undefined_var=False, nop_match=None, entry="execute"):
     out = []
     hooks_list, sessions = [], []
 
@@ -431,7 +431,7 @@ def run_execute(prog: Program, kind: str, mode: str | None, params=None, paramst
             conn.attrs["variables"].attrs[R().variables] = Dct(variables)
         cur.attrs[R().sqlstate] = Const(old_sqlstate)
         sessions.append((conn, cur))
-        return I.call(I.getattr(cur, "execute"), [Sym("COMMAND", typ="str", truthy=True), params if params is not None else Const(None)], {}, None)
+        return I.call(I.getattr(cur, entry), [Sym("COMMAND", typ="str", truthy=True), params if params is not None else Const(None)], {}, None)
 
     paths = explore(prog, factory, run, max_paths=max_paths)
     for p, h, (conn, cur) in zip(paths, hooks_list, sessions):
